@@ -226,7 +226,12 @@ pub fn render(prog: &AProg, style: &Style) -> Rendered {
             Nuc::In => r.kw("IN"), Nuc::Putsp => r.kw("PUTSP"), Nuc::Halt => r.kw("HALT"),
             Nuc::Orig(a) => { r.dir("orig"); r.sep(); r.unsigned(*a); }
             Nuc::End => r.dir("end"),
-            Nuc::Fill(FillOp::Num(n)) => { r.dir("fill"); r.sep(); r.unsigned(*n); }
+            Nuc::Fill(FillOp::Num(n)) => {
+                r.dir("fill"); r.sep();
+                // .fill is sign-agnostic: under decimal notations (and upper-case hex prefix) a word >= x8000 is written as a negative literal
+                let signed_form = *n >= 0x8000 && (style.num != NumStyle::Hex || style.hex_upper);
+                if signed_form { r.signed(*n as i16); } else { r.unsigned(*n); }
+            }
             Nuc::Fill(FillOp::Lab(l)) => { r.dir("fill"); r.sep(); let s = r.out.len(); r.out.push_str(l); opl = Some(s..r.out.len()); }
             Nuc::Blkw(n) => { r.dir("blkw"); r.sep(); r.unsigned(*n); }
             Nuc::Stringz(s) => { r.dir("stringz"); r.sep(); r.out.push('"'); let e = escape_str(s); r.out.push_str(&e); r.out.push('"'); }
